@@ -118,7 +118,8 @@ def load_all(run, maxrank, dims=(2, 3), K=5, maxword=2, with_composite=True, wor
     def unit_job(dim):
         try:
             c = core.cfg(constants=dict(Dim=dim, K=K, MaxWord=maxword),
-                         invariants=["InDomain", "FormPreserved", "Equivariant", "Distinguishable", "EmitObs"])
+                         invariants=["InDomain", "FormPreserved", "Equivariant", "Distinguishable", "ShortIdsInjective",
+                                     "EmitObs"])
             results[("units", dim)] = run.tlc("comp/CompUnits.tla", c, name="CompUnits_dim%d" % dim,
                                               workers=workers, emit_prefix="UNIT ")
         except BaseException as e:      # re-raised in the caller's thread
